@@ -5,7 +5,7 @@ import vlib
 from vlib import CheckError
 
 STAT_NAMES = ["initiations_answered", "initiations_refused", "responses_accepted", "responses_refused",
-              "data_accepted", "data_refused", "device_initiations", "ref_verdict_ok", "ref_verdict_failed"]
+              "data_accepted", "data_refused", "device_initiations", "ref_verdict_ok", "ref_verdict_failed", "restarts", "cookie_replies"]
 
 
 class Prop:
@@ -14,7 +14,9 @@ class Prop:
     vo_props = ["theories/Props/C03.vo"]
     k_names = ["handshake(device co-simulated against ref == Noise.Model.dev_step against Noise.Paper parties)",
                "wire(device-emitted initiation/response bytes decode with Wire.Codec to the fields ref parsed)"]
-    rule = ("handshake scenarios from one PRNG, 11 templates: ref initiates / device initiates (TUN or hook) x psk "
+    rule = ("handshake scenarios from one PRNG, 16 templates (the last five: device Down/Up between handshakes in both roles with "
+            "non-zero / mismatching psk; unauthentic cookie replies -- garbage, wrong key, wrong or outdated MAC1 as associated "
+            "data, right receiver index -- before a retransmitted initiation and before a response; an authentic cookie reply): ref initiates / device initiates (TUN or hook) x psk "
             "{zero, random, mismatching in three ways} x identity {configured, unconfigured, the device's own key} x "
             "initiations built or MACed for another responder key, responses from a party that is not the addressed peer, "
             "equal/older timestamps, a second initiation before the first completes, answers to an older device "
@@ -42,7 +44,7 @@ class Prop:
         return meta, files
 
     def generate(self, seed, tier, mult):
-        n = (48 if tier == "quick" else 900) * mult
+        n = (64 if tier == "quick" else 960) * mult
         shards = 8 if tier == "quick" else 32
         exe = vlib.build_go("c03")
         rc, o = vlib.sh([exe, "-seed", str(seed), "-n", str(n), "-shards", str(shards), "-out", self.dir,
@@ -74,7 +76,7 @@ class Prop:
             pk = case["parties"][stp.get("party", 0)] if stp.get("party", 0) < len(case["parties"]) else {}
             f["party"] = "%s/%s" % (pk.get("kind"), pk.get("psk"))
             f["flags"] = "+".join(x for x in (stp.get("resp_key") and "resp_" + stp["resp_key"], stp.get("mac_key") and "mac_" + stp["mac_key"],
-                                              stp.get("ts"), stp.get("which")) if x)
+                                              stp.get("ts"), stp.get("which"), stp.get("kind")) if x)
             f["event"] = o.get("event")
             f["observed"] = {"outs": o.get("outs"), "ref": o.get("ref"), "peers": o.get("peers")}
         return f
